@@ -33,6 +33,7 @@ from vlib.sched import threads as TS
 
 LEVEL = 'exploration'
 K_FIND_TEAR = 'dynamic-add-route-tears-finder-and-side-tables'
+K_HANDLER_STALE = 'runtime-handler-replacement-races-with-in-flight-resolution'
 SHARDS = {'quick': 4, 'thorough': 16}
 BUDGET = {'quick': 20, 'thorough': 170}
 
@@ -473,12 +474,17 @@ def run_controlled(rec, sched, build, reqs, chooser, phase, accept=None, ref_bui
     orig = chooser
     preempted_in_router_find = set()      # workers switched away from while between the lines of CompiledRouter.find()
 
+    preempted_in_handler_resolve = set()  # workers switched away from while inside Handlers' cached resolve()
+
     def watching(s, runnable, cur):
         nxt = _watching(s, runnable, cur)
         for w in s.workers:
             if w['idx'] != nxt and w['state'] in ('parked',) and w['where'] and w['where'][0] == 'find' \
                     and w['where'][2].endswith('falcon/routing/compiled.py'):
                 preempted_in_router_find.add(w['idx'])
+            if w['idx'] != nxt and w['state'] in ('parked',) and w['where'] and w['where'][0] == 'resolve' \
+                    and w['where'][2].endswith('falcon/media/handlers.py'):
+                preempted_in_handler_resolve.add(w['idx'])
         return nxt
 
     def _watching(s, runnable, cur):
@@ -516,7 +522,32 @@ def run_controlled(rec, sched, build, reqs, chooser, phase, accept=None, ref_bui
             differing = [i for i in range(len(vec)) if all(vec[i] != a[i] for a in accept)]
             if differing and all(i in preempted_in_router_find for i in differing):
                 known = K_FIND_TEAR
-        wit.update(preempted_in_router_find=sorted(preempted_in_router_find))
+        if known is None and any(r['path'] == '/admin/handler' for r in reqs) and preempted_in_handler_resolve:
+            # narrow classifier: a request replaced the JSON response handler at run time while another request was
+            # switched away from INSIDE the cached resolve(); every response that differs from every serial outcome is
+            # exactly an accepted response rendered by the replaced (old) handler, i.e. without the new handler's mark
+            def unmarked(resp):
+                try:
+                    doc = json.loads(resp[3])
+                    return isinstance(doc, dict) and set(doc) == {'by', 'doc'} and doc['doc']
+                except Exception:  # noqa
+                    return None
+
+            def plain(resp):
+                try:
+                    return json.loads(resp[3])
+                except Exception:  # noqa
+                    return None
+            differing = [i for i in range(len(vec)) if all(vec[i] != a[i] for a in accept)]
+            if differing and all(
+                    isinstance(vec[i], tuple) and any(
+                        isinstance(a[i], tuple) and a[i][:3] == vec[i][:3] and a[i][4:] == vec[i][4:]
+                        and unmarked(a[i]) is not None and unmarked(a[i]) is not False and unmarked(a[i]) == plain(vec[i])
+                        for a in accept)
+                    for i in differing):
+                known = K_HANDLER_STALE
+        wit.update(preempted_in_router_find=sorted(preempted_in_router_find),
+                   preempted_in_handler_resolve=sorted(preempted_in_handler_resolve))
         rec.violation('not-serializable', wit, known_key=known)
     return vec
 
